@@ -35,6 +35,16 @@ def gather(tier, run):
                 continue
             seen.add(s)
             out.append((s, tr, p.name, d <= text_depth, d <= bytes_depth))
+    # hand-built families whose meaning depends on cross-namespace resolution (both import directions are in the families;
+    # the file permutations of this check put importer and imported in either order)
+    extra = 0
+    for fam in (profiles.cross_namespace_inheritance_models, profiles.three_namespace_chain_models, profiles.annotation_models):
+        for m, tr in fam():
+            if m not in seen:
+                seen.add(m)
+                out.append((m, tr, tr[0], True, True))
+                extra += 1
+    run.bounds['hand_built_cross_namespace_models'] = extra
     run.bounds['per_profile_state_budget'] = budget
     run.bounds['text_level_variants_up_to_depth'] = text_depth
     run.bounds['backend_bytes_compared_up_to_depth'] = bytes_depth
